@@ -5,8 +5,10 @@ package mgmthttp
 // Contracts for the verifier in /verif (comment-only; see /verif/DESIGN.md).
 
 /*@
+// (ghost bookkeeping: that a backup was asked for, and whether it failed)
 func MgmtApi.CreateBackup
-  modifies everything
+  modifies everything, createBackupCalls, lastCreateBackupFailed
+  assumes createBackupCalls == old(createBackupCalls) + 1 && lastCreateBackupFailed == !isnil(result)
 // (ghost bookkeeping: the list the API returned)
 func MgmtApi.ListBackups
   modifies everything, listedBackups
@@ -20,10 +22,15 @@ func ManageBackup.$1
   props C11 C16
   requires !isnil(api) && !isnil(w) && r != nil && r.URL != nil
   modifies everything, deleteBackupCalls, lastDeletedBackup, lastParsedUint
+// a backup that failed is never reported as taken: 200 is only announced after a CreateBackup that
+// returned no error (otherwise the operator believes in a backup of version v that does not exist,
+// and a later "restore the backup taken at v" yields an older log)
 func CreateBackup
   props C11 C16
   requires !isnil(api) && !isnil(w) && r != nil
-  modifies everything
+  modifies everything, createBackupCalls, lastCreateBackupFailed, lastStatus
+  ensures C16/at-most-one-backup-per-request: createBackupCalls == old(createBackupCalls) || createBackupCalls == old(createBackupCalls) + 1
+  ensures C16/a-failed-backup-is-not-reported-as-taken: createBackupCalls == old(createBackupCalls) + 1 && lastCreateBackupFailed ==> lastStatus != 200
 // at most one deletion is requested, and it is for exactly the number in the query string:
 // an id that does not fit the 32 bits of a backup id is refused, never cut down to another id
 func DeleteBackup
